@@ -632,13 +632,18 @@ def kind_of(f):
 
 
 def envelope_of(out):
-    """'ok <hex>' -> the envelope only: first 7 bytes, length, last byte"""
+    """'ok <hex>' -> what the framing theorems need of an encoder output: type octet, channel, whether
+    the size field equals len - 8, last byte (the payload itself is compared by the exact lanes)"""
     if not out.startswith('ok '):
         return out.split(' ')[0] if out.startswith('err') else out
     h = out[3:]
     if h == '-':
         return 'ok empty'
-    return 'ok %s %d %s' % (h[:14], len(h) // 2, h[-2:])
+    if h.startswith('414d5150'):
+        return 'ok AMQP %d' % (len(h) // 2)
+    n = len(h) // 2
+    size_ok = n >= 8 and int(h[6:14], 16) == n - 8
+    return 'ok %s %s %s' % (h[:6], size_ok, h[-2:])
 
 
 def size_boundaries(ctx):
